@@ -187,7 +187,7 @@ def r10_3(ctx):
                 for p in lps[0].iteration_paths(Sym(g, copies=False)):
                     for e in p.events:
                         if e[0] == "call" and e[1] == "marker::transformer::Transform::transform":
-                            sets = [x for x in p.events if x[0] == "set" and x[3] == e[3]]
+                            sets = [x for x in p.events if x[0] in ("set", "init") and x[3] == e[3]]
                             threaded = bool(sets) and e[2][1][0] in ("local", "param", "havoc") and (e[2][1][1] == sets[0][1])
             r.ob("transformer:in-order:%s" % key.rsplit("::", 2)[-2], ok and threaded, g.site, "transformers are applied in list order, each on the previous result")
     ctx.run_rule("R10.3", "transformer dispatch table and order", body, floor=11)
